@@ -182,6 +182,7 @@ class History:
         self.sessions: list[dict] = []
         self.new_dir_counter = 0
         self.results = None
+        self.tainted = False  # an unpublished session happened
 
     # -- directory resolution (indices keep shrinking meaningful) ----------
     def _fresh(self) -> str:
@@ -257,6 +258,26 @@ class History:
             if subdir is not None and subdir not in self.dirs and any(
                     r[1] for r in concrete):
                 self.dirs.append(subdir)
+        elif kind == "unpublished":
+            # a filler that never publishes (auto_update_dataset=False and no
+            # write_config): what a session killed before its final update
+            # leaves behind.  Nothing is committed to the model.
+            from sedpack.io.dataset_filler import DatasetFiller
+            subdir, relation = self.resolve_dir(op["dir"])
+            info["dir"] = subdir
+            info["relation"] = "unpublished-" + relation
+            concrete, records = self._expand(op["runs"], 0)
+            try:
+                filler = DatasetFiller(
+                    self.ds,
+                    relative_path_from_split=Path(subdir or "."),
+                    auto_update_dataset=False)
+                with filler as ctx_:
+                    dsops.write_runs(ctx_, self.desc, concrete)
+            except BaseException as exc:  # pylint: disable=broad-except
+                raise SessionFailed(self.session_no, op, exc) from exc
+            self.tainted = True
+            records = []
         elif kind == "multi":
             writers, records = [], []
             for w, runs in enumerate(op["writers"]):
